@@ -162,4 +162,15 @@ var props = map[string]*propDef{
 			{Name: "proto.VerifC19RelationVocab", Quick: map[string]int{"maxparam": 1}, Thorough: map[string]int{"maxparam": 2}},
 		},
 	},
+	"C18": {
+		ID: "C18", Level: "model_checking", Rule: ruleDefault,
+		Assumptions: append([]string{
+			"server blocks are produced by the harness' reference writer for 13 server type strings; 14 target column kinds; the compatible / incompatible / open classification of each (server, target) pair is written out in the harness (vCompat)",
+		}, baseAssumptions...),
+		Harnesses: []harnessDef{
+			{Name: "proto.VerifC18Bind", Quick: map[string]int{"maxcols": 1}, Thorough: map[string]int{"maxcols": 2}, Optional: []string{"compatible-block-rejected"}},
+			{Name: "proto.VerifC18Bind", OnlyTier: "quick", Quick: map[string]int{"maxcols": 2, "srvmax": 4, "tgtmax": 4}, Optional: []string{"compatible-block-rejected", "enum-adopted", "precision-adopted"}},
+			{Name: "proto.VerifC18Names"},
+		},
+	},
 }
